@@ -3,6 +3,23 @@ use super::*;
 
 fn stub_fmt(_a: core::fmt::Arguments<'_>) -> String { String::new() }
 
+// ---- contracts placed on the real converters (Kani function contracts) ----
+//@contract fn=convert_from_gear_id
+//@| #[cfg_attr(kani, kani::ensures(|r: &u32| if id >= 1_000_000 { *r == id - 1_000_000 } else { *r == id }))]
+//@contract fn=convert_to_gear_id
+//@| #[cfg_attr(kani, kani::requires(*id <= u32::MAX - 1_000_000))]
+//@| #[cfg_attr(kani, kani::ensures(|r: &u32| *r == *id + 1_000_000))]
+
+//@unit props=C09,C17 label=P tier=quick fn=gearsets::convert_from_gear_id
+//@desc contract on the real fn, all 2^32 stored values: the marker is removed from values that carry it, smaller values are kept, no overflow
+#[kani::proof_for_contract(convert_from_gear_id)]
+fn k_gear_id_strip_contract() { let x: u32 = kani::any(); let r = convert_from_gear_id(x); assert!(r <= x, "never larger than the stored value"); kani::cover!(true, "reachable"); }
+
+//@unit props=C09 label=P tier=quick fn=gearsets::convert_to_gear_id
+//@desc contract on the real fn: the stored value is the id plus the marker (ids up to u32::MAX - 1000000)
+#[kani::proof_for_contract(convert_to_gear_id)]
+fn k_gear_id_mark_contract() { let x: u32 = kani::any(); let r = convert_to_gear_id(&x); assert!(r >= 1_000_000, "marker carried"); kani::cover!(true, "reachable"); }
+
 //@unit props=C09 label=P tier=quick fn=gearsets::{convert_from_gear_id,convert_to_gear_id,convert_id_opt,convert_opt_id}
 //@desc strip(add(id)) == id for every item id below the marker 1000000 (so a written gear set reads back to the same item ids); stored values carry the marker additively; glamour/facewear 0 <-> None and every other value round-trips
 #[kani::proof]
